@@ -154,6 +154,19 @@ CHECKS = {
              "for range and all vectors for equality in a second interpreter with a random PYTHONHASHSEED.",
         technique="TLA+ transcription of the reference algorithm; TLC as independent evaluator of every recorded vector (trace validation)",
         design_ref="4 C14", note=TRUST + " A transcribed pure function: TLC is an evaluator here, not an explorer; states = vectors evaluated."),
+    "C15": dict(
+        category="exploration",
+        text="TLC enumerates the 38k-point grid of spec/Serde.tla (22 value classes x size relative to the compression threshold x "
+             "compressibility x pickle protocol 0..5 x min_compress_len {0,1,10,400} x codec {zlib,bz2,lzma,identity} x plain/compressed) and checks "
+             "the decision model of serde.py (flag algebra, threshold, keep-smaller rule) against the contract monitor spec/SerdeRule.tla. A seeded "
+             "random sample of grid points (quick 1/6, thorough all) is concretised with random values of each class (ints with thousands of "
+             "digits, incompressible bytes, sets/frozensets/complex/bytearray/range, subclasses of int/str/bytes/dict, custom objects, nested "
+             "containers) through PickleSerde, CompressedSerde and LegacyWrappingSerde; TLC validates every observation: no exception, transmittable "
+             "form, flags < 2^16, equal value of exactly the same type, COMPRESSED flag exactly when the compressed form is stored, never larger than "
+             "the uncompressed form.",
+        technique="TLA+ decision model + contract monitor; TLC-enumerated grid; seeded concretisation; TLC trace validation",
+        design_ref="4 C15",
+        note=TRUST + " Pickle itself is outside any TLA+ model: equality and exact type are observed facts the contract requires."),
     "C17": dict(
         category="model_checking",
         text="TLC explores the as-coded model of RetryingClient.__init__/_retry (spec/Retrying.tla) against the contract "
